@@ -27,6 +27,9 @@ type RedisOp struct {
 	PX     time.Duration
 	Hit    bool // GET: a live value was returned; SET: the value was stored
 	Expire time.Time
+	// GET: the reply was not written before this instant (arrival + the latency in force; replies leave in command order,
+	// so it may have been later)
+	ReplyNotBefore time.Time
 	// SET: the live value the key held when the command arrived (nil if none) and its expiry
 	Prev       []byte
 	PrevExpire time.Time
@@ -257,7 +260,7 @@ func (r *FakeRedis) serve(c net.Conn) {
 				delete(r.data, string(args[1]))
 				ok = false
 			}
-			op := RedisOp{At: now, Cmd: "GET", Key: append([]byte(nil), args[1]...), Hit: ok}
+			op := RedisOp{At: now, Cmd: "GET", Key: append([]byte(nil), args[1]...), Hit: ok, ReplyNotBefore: now.Add(delay)}
 			if ok {
 				op.Value = e.v
 				op.Expire = e.expire
